@@ -83,6 +83,7 @@ from concurrent.futures import ThreadPoolExecutor
 from lib import floatq as fq
 from lib import impl  # noqa: F401  (imports yaw from the tree under test, without MPI)
 from props import c06_common as cc
+from props import c06_faults as cf
 from props import c06_procworld as procw
 
 ALLOWED_AXIOMS = []
@@ -152,6 +153,7 @@ REPO_SRC = os.environ.get("VERIF_REPO_SRC", "/repo/src")
 EOQ = "class:EndOfQueue"
 
 HEADER_R = "From Verif Require Import Prelude Dispatch MpiWrite.\nOpen Scope nat_scope.\n"
+HEADER_X = "From Verif Require Import Prelude Dispatch DispatchRetry.\nOpen Scope nat_scope.\n"
 F13A = "c06-maxworkers1-no-task-executed"
 F13B = "c06-write-sentinel-overtakes-eager"
 
@@ -273,6 +275,7 @@ def dispatch_jobs(ctx, size, mode, batch):
         jobs.append(dict(kind="selftest"))
     jobs += stop_jobs(ctx, size, mode, batch)
     jobs += joberr_jobs(ctx, size, mode, batch)
+    jobs += xfault_jobs(ctx, size, mode, batch)
     for i, j in enumerate(jobs):
         j["id"] = i
     return jobs
@@ -490,6 +493,256 @@ def joberr_jobs(ctx, size, mode, batch):
     return jobs
 
 
+# ------------------------------------------------------------------------------------------
+# (v) jobs that fail TRANSIENTLY, number of executions per task (Model/DispatchRetry.v)
+# ------------------------------------------------------------------------------------------
+_kind_rot = [0]
+
+
+def next_kind_index():
+    """the exception kinds of c06_faults.NAMED are used in turn (every run uses all of them), further kinds are random"""
+    _kind_rot[0] += 1
+    return _kind_rot[0] - 1
+
+
+def xfault_jobs(ctx, size, mode, batch):
+    """iter_unordered with a job that records every execution (task, rank, earlier executions of the task, failed?) and fails
+    as planned: which tasks, with which exception (errno / class / own subclass), on the first execution only / always / on
+    given ranks only"""
+    rng = ctx.rng
+    jobs = []
+    mws = [None, 1, 2, 3, size]
+    mws = [m for i, m in enumerate(mws) if m is None or (m <= size and m not in mws[:i])]
+    nts = [1, 2, 4, 7] if ctx.quick() else [1, 2, 3, 5, 8, 12]
+    for mw in mws:
+        for nt in nts:
+            for _ in range(ctx.n(1, 2)):
+                tasks = rng.sample(range(0, 900), nt)
+                plan = cf.draw_plan(rng, size, None, next_kind_index())
+                pol = rng.choice(["random", "random", "random", "low", "high", "fifo", "lifo"])
+                jobs.append(dict(kind="dispatch", tasks=tasks, fault=dict(plan, ep=0, where="before"), max_workers=mw,
+                                 consumer=rng.choice(LAZY_CONSUMERS), sched=dict(mode=mode, policy=pol, seed=rng.randrange(10 ** 6))))
+    tasks = rng.sample(range(900), 5)
+    jobs.append(dict(kind="dispatch", tasks=tasks, fault=dict(cf.draw_plan(rng, size, None, next_kind_index()), ep=0, where="before"),
+                     max_workers=rng.choice([None, 2, size]), node_only=True, consumer=rng.choice(LAZY_CONSUMERS),
+                     sched=dict(mode=mode, policy="random", seed=rng.randrange(10 ** 6))))
+    # every sequence of wildcard choices: one task of four fails on its first execution only / on worker rank 1 only
+    if mode != "mixed" and batch == 0:
+        cap = 60 if ctx.quick() else 400
+        jobs.append(dict(kind="dispatch", tasks=[10, 11, 12, 13], max_workers=None, exhaustive=True, maxruns=cap, consumer="for",
+                         fault=dict(ep=0, items=[1], kinds=[cf.draw_kind(rng, next_kind_index())], when="first", ranks=[], where="before"),
+                         sched=dict(mode=mode, seed=0)))
+        jobs.append(dict(kind="dispatch", tasks=[7, 8, 9], max_workers=None, exhaustive=True, maxruns=cap, consumer="indicator-for",
+                         fault=dict(ep=0, items=[0, 2], kinds=[cf.draw_kind(rng, next_kind_index())], when="ranks", ranks=[1], where="before"),
+                         sched=dict(mode=mode, seed=0)))
+    return jobs
+
+
+_cls_codes = {}
+
+
+def cls_code(name, eno):
+    """exception classes as numbers for the Coq side: (class name, errno)"""
+    key = "%s/%s" % (name, eno)
+    if key not in _cls_codes:
+        _cls_codes[key] = len(_cls_codes) + 1
+    return _cls_codes[key]
+
+
+def xtranslate(log, size):
+    """communication log of ONE iter_unordered run whose job records its executions (simulator log op `xexec`) -> choices of
+    Model/DispatchRetry.v + the execution log [position, rank, failed, earlier executions, episode] in the order of the calls.
+    Root's task messages -> XHand, every call of the job function -> XExec / XFallback (rank 0) with its outcome, root's
+    receives of results -> XReport, the root entering the closing broadcast -> XFinish."""
+    nworkers = size - 1
+    out, xlog, init_sent, closed = [], [], 0, False
+    for e in log:
+        n, rank, op, peer, tag, cid, summ = e[:7]
+        if cid != 0:
+            continue
+        if op in ("send", "ssend") and rank == 0 and tag == 1:
+            if init_sent < nworkers:
+                init_sent += 1
+            if summ != EOQ:
+                out.append("XHand %d" % (peer - 1))
+        elif op == "recv" and rank == 0 and tag == 2:
+            out.append("XReport %d" % (peer - 1))
+        elif op == "xexec":
+            ep, item, a, f = (int(x) for x in summ.split(":"))
+            xlog.append([item, rank, bool(f), a, ep])
+            out.append("XFallback %s" % fq.b(f) if rank == 0 else "XExec %d %s" % (rank - 1, fq.b(f)))
+        elif rank == 0 and op == "enter:bcast" and init_sent == nworkers and not closed:
+            out.append("XFinish")
+            closed = True
+    return out, xlog
+
+
+def xterm(size, ranks, tasks, choices, exact, got, xlog, outs, cls, bad0):
+    return "c06_xdispatch_case %s %s %s %s %s %s %s %s %s %s" % (
+        fq.nat(size - 1), fq.nlist(sorted(ranks)), fq.nlist(tasks), fq.lst(choices), fq.b(exact), fq.nlist(got),
+        fq.lst(["(%s, %s, %s)" % (fq.nat(t), fq.nat(r), fq.b(f)) for t, r, f in xlog]),
+        fq.lst(["None" if o is None else "(Some (%s, %s))" % (fq.nat(o[0]), fq.nat(o[1])) for o in outs]),
+        fq.lst(["(%s, %s)" % (fq.nat(t), fq.nat(c)) for t, c in cls]),
+        "None" if bad0 is None else "(Some %s)" % fq.nlist(bad0))
+
+
+def plan_label(plan):
+    return "%s%s/%s" % (plan.when, "" if plan.when != "ranks" else ":" + ",".join(str(r) for r in plan.ranks), plan.where)
+
+
+def handle_xfault(ctx, st, size, j, res):
+    """one transient-failure dispatch job (possibly many runs when exhaustive); collects Coq terms"""
+    mode = j["sched"].get("mode", "eager")
+    hosts = j["sched"].get("hosts")
+    ranks = ranks_of(size, j.get("max_workers"), j.get("node_only"), hosts)
+    tasks, fault = j["tasks"], j["fault"]
+    plan = cf.Plan(fault)
+    cons = j.get("consumer") or "for"
+    hits = plan.hits(0, len(tasks))
+    planned = {tasks[i]: cf.planned_class(k) for i, k in hits.items()}
+    cls = sorted((t, cls_code(*c)) for t, c in planned.items())
+    bad0 = sorted(planned) if plan.rank_independent() else None
+    for run in res.get("runs", []):
+        idx = ("x", len(st["xmeta"]) + len(st["xnoterm"]))
+        replay = dict(entry="parallel.iter_unordered", fault_plan=fault, world_size=size, max_workers=j.get("max_workers"),
+                      rank0_node_only=bool(j.get("node_only")), tasks=tasks, consumer=cons, schedule=run.get("sched"),
+                      job_raises={str(t): c for t, c in sorted(planned.items())},
+                      decisions=[[d["rank"], d["senders"], d["chosen"]] for d in run.get("decisions", [])][:40],
+                      how="job t -> 3t+1 that records every execution and raises as planned (harness/props/c06_faults.py: Plan; "
+                          "items = positions in `tasks`)")
+        anyfail = any(x[3] for x in run.get("executed", []))
+        key = ("xfault", size, j.get("max_workers"), bool(j.get("node_only")), mode,
+               tuple(d["chosen"] for d in run.get("decisions", [])), tuple(tasks), json.dumps(fault, sort_keys=True), cons)
+        ctx.count(key=key, nontrivial=anyfail and size >= 2,
+                  kind="transient/iter_unordered/%s/size%d%s" % (plan.when, size, "/exh" if j.get("exhaustive") else ""))
+        for c in planned.values():
+            ctx.bump("transient_exception:%s%s" % (c[0], "" if c[1] is None else "(errno %d)" % c[1]))
+        prob = rank_problems(run)
+        if prob:
+            st["xnoterm"].append(idx)
+            ctx.fail("c06-transient-%s:iter_unordered" % problem_kind(prob),
+                     "iter_unordered (consumer: %s) with a job that fails as planned (%s; tasks %s, %d ranks, max_workers=%s, %s sends) "
+                     "did not end on all ranks (%s): %s; blocked in: %s"
+                     % (cons, json.dumps(fault), tasks, size, j.get("max_workers"), mode, prob[0], json.dumps(prob[1], default=str)[:500],
+                        json.dumps((run.get("abort") or {}).get("blocked"))[:300]), replay, case=idx)
+            continue
+        vals = {int(r): v.get("value") or {} for r, v in run["ranks"].items()}
+        outs, odd = [], []
+        for r in range(size):
+            raised = vals[r].get("raised")
+            where = cf.parse_raised(raised)
+            if raised is None:
+                outs.append(None)
+            elif where is not None and where[1] < len(tasks):
+                outs.append((tasks[where[1]], cls_code(raised[0], raised[2])))
+            else:
+                outs.append((4000 + r, 0))
+                odd.append([r, raised])
+        if odd:
+            ctx.fail("c06-transient-rank-exception:" + str(odd[0][1][0]),
+                     "iter_unordered with a job that fails as planned: rank(s) %s ended with an exception that is not the job's" % odd,
+                     replay, case=idx)
+        got = vals[0].get("got", [])
+        choices, xl = xtranslate(run["log"], size)
+        xlog = [(tasks[i], r, f) for i, r, f, a, ep in xl]
+        if sorted([r, tasks[i], a, f] for i, r, f, a, ep in xl) != sorted(run.get("executed", [])):
+            ctx.disagree("transient-observation(execution marks in the simulator log vs the job's own record)", idx,
+                         dict(replay=replay, marks=xl[:20], record=run.get("executed", [])[:20]))
+            continue
+        ctx.bump("transient_runs:" + ("raised" if outs[0] is not None else "returned"))
+        ctx.bump("transient_plan:" + plan_label(plan))
+        if any(r == 0 for _, r, _ in xlog):
+            ctx.bump("transient_runs_with_root_fallback")
+        st["xterms"].append(xterm(size, ranks, tasks, choices, True, got, xlog, outs, cls, bad0))
+        st["xmeta"].append(dict(idx=idx, replay=replay, variant="iter_unordered", what="tasks %s, plan %s" % (tasks, json.dumps(fault)),
+                                got=got, xlog=xlog, outs=outs, nchoices=len(choices)))
+        ctx.sample(dict(kind="transient-job-error", replay=replay, root_yielded=got, executions=[list(x) for x in xlog][:12], per_rank=outs,
+                        choices=choices[:40]), limit=8)
+        # the messages of the run against the channel-level model (Model/Dispatch.v, jobs that may fail): the tasks whose
+        # (only) execution failed are its `fails`
+        if len({t for t, _, _ in xlog}) == len(xlog):
+            badobs = sorted(t for t, _, f in xlog if f)
+            root_calls = "".join("E" if f else "K" for _, r, f in xlog if r == 0)
+            echoices, info = etranslate(run["log"], size, root_calls)
+            eouts = [None if o is None else o[0] for o in outs]
+            st["eterms"].append(eterm(mode, size, ranks, tasks, badobs, echoices, True, got, [t for t, _, _ in xlog], eouts))
+            st["emeta"].append(dict(idx=("e",) + idx, replay=replay, what="tasks %s, job failed for %s (plan %s)" % (tasks, badobs, json.dumps(fault)),
+                                    got=got, ran=[t for t, _, _ in xlog], outs=eouts, nchoices=len(echoices)))
+    if j.get("exhaustive"):
+        ctx.bump("transient_exhaustive_sets_complete" if res.get("exhaustive_complete") else "transient_exhaustive_sets_truncated")
+        ctx.bump("transient_exhaustive_runs", len(res.get("runs", [])))
+
+
+def episode_xcase(ctx, st, w, j, ep, recs, eidx, erep, ranks):
+    """(v) one iter_unordered call of a group T request (fault plan armed): the execution record of its jobs against
+    Model/DispatchRetry.v.  Returns False when some item was executed more than once (then the channel-level replay, which
+    assumes one call per task message, is skipped)."""
+    size = w["size"]
+    root = recs[0]
+    ntasks = root["ntasks"]
+    plan = cf.Plan(j["par"]["plan"])
+    op = j["cls"].rsplit("-", 1)[1]
+    choices, xl = xtranslate(ep["log"], size)
+    xlog = [(i, r, f) for i, r, f, a, e in xl]
+    hits = plan.hits(ep["ep"], ntasks)
+    planned = {i: cf.planned_class(k) for i, k in hits.items()}
+    cls = sorted((i, cls_code(*c)) for i, c in planned.items())
+    bad0 = sorted(planned) if plan.rank_independent() else None
+    outs = []
+    for r in range(size):
+        o = recs[r]["outcome"]
+        where = cf.parse_raised(o[1:3]) if o[0] == "raised" else None
+        if o[0] == "returned":
+            outs.append(None)
+        elif where is not None and where[0] == ep["ep"] and where[1] < ntasks:
+            outs.append((where[1], cls_code(o[1], recs[r].get("errno"))))
+        else:
+            outs.append((4000 + r, 0))
+    ctx.count(key=("xepisode",) + tuple(str(x) for x in eidx) + (size, j["max_workers"], w["mode"], w["policy"], w["seed"], w["spec"],
+                                                               json.dumps(j["par"], sort_keys=True)),
+              nontrivial=any(f for _, _, f in xlog) and size >= 2, kind="transient/%s/%s" % (op, plan.when))
+    for c in planned.values():
+        ctx.bump("transient_exception:%s%s" % (c[0], "" if c[1] is None else "(errno %d)" % c[1]))
+    ctx.bump("transient_episodes:%s:%s" % (op, "raised" if outs[0] is not None else "returned"))
+    st["xterms"].append(xterm(size, ranks, list(range(ntasks)), choices, False, [0] * root["nyield"], xlog, outs, cls, bad0))
+    st["xmeta"].append(dict(idx=eidx, replay=dict(erep, job_raises={str(i): c for i, c in sorted(planned.items())}), variant=op,
+                            what="%s, iter_unordered call #%d over %d items, plan %s" % (j["cls"], ep["ep"], ntasks, json.dumps(j["par"]["plan"])),
+                            got=root["nyield"], xlog=xlog, outs=outs, nchoices=len(choices)))
+    if planned:
+        ctx.sample(dict(kind="transient-episode", replay=erep, executions=[list(x) for x in xlog][:12], per_rank=outs, choices=choices[:40]), limit=10)
+    return len({i for i, _, _ in xlog}) == len(xlog)
+
+
+XFLAGS = [
+    (2, "ranks-end-differently", "the ranks do not leave iter_unordered the same way (all raise the same error or all return)"),
+    (4, None, "the ranks return although an execution of the job failed (the error is masked), or raise an error that is not that of a failed execution"),
+    (8, "task-executed-twice", "some task was executed more than once (or one that is not in the task list)"),
+    (16, "yielded-not-executed", "the root yielded something that is not the result of a distinct execution that did not fail"),
+    (32, "root-result-differs", "no rank raised but not every task was executed once / the root did not get map f tasks"),
+    (64, "outcome-differs-from-single-process", "failing does not depend on the rank here: the single-process run raises iff some planned task is in the list - the ranks end the other way"),
+    (128, "exception-class-differs", "the exception the ranks raise is not of the class (and errno) the job raised for that task"),
+]
+
+
+def finish_xdispatch(ctx, st):
+    codes = ctx.shards("Cases_C06X", HEADER_X, st["xterms"], shard=120)
+    for m, c in zip(st["xmeta"], codes):
+        if c is None or c == 0:
+            continue
+        raised = m["outs"][0] if m["outs"] else None
+        for bit, sig, what in XFLAGS:
+            if c & bit:
+                if bit == 4:
+                    sig = "job-error-masked" if raised is None else "raised-error-not-of-a-failed-execution"
+                ctx.fail("c06-transient-%s:%s" % (sig, m["variant"]),
+                         "%s: %s; root yielded %s, executions (task, rank, failed) %s, per rank (None = returned, (t, c) = raised the error "
+                         "of task t with exception class code c) %s" % (m["what"], what, m["got"], [list(x) for x in m["xlog"]][:24], m["outs"]),
+                         m["replay"], case=m["idx"])
+        if c & 1:
+            ctx.disagree("Cases_C06X", m["idx"], dict(code=c, first_disabled_event=(c // 256) - 1 if c >= 256 else None,
+                                                      replay=m["replay"]))
+
+
 def oopt(x):
     return "None" if x is None else "(Some %s)" % fq.nat(x)
 
@@ -584,6 +837,11 @@ def handle_episodes(ctx, st, w, j, run, idx, replay):
         ranks = ranks_of(size, ep_mw, bool(root.get("node_only")), None)
         choices, info = etranslate(ep["log"], size, root["calls"])
         eidx = (idx[0], idx[1], "ep%d" % ep["ep"])
+        if root.get("faulted"):
+            # (v) a fault plan was armed: execution counts and outcome against Model/DispatchRetry.v
+            xrep = dict(replay, episode=ep["ep"], items=root["ntasks"], per_rank={r: v["outcome"] for r, v in recs.items()})
+            if not episode_xcase(ctx, st, w, j, ep, recs, eidx, xrep, ranks):
+                continue
         # the job function's own record (per rank, in order) against the log: one call per task received
         calls_ok = all(len(recs[r]["calls"]) == sum(1 for x, _ in info["executed"] if x == r) for r in recs)
         bad = set()
@@ -960,7 +1218,8 @@ def pipeline_worlds(ctx):
     for k, pw in enumerate(probes):
         fixed = random.Random("c06-refusal-probes-%d" % k)
         pw.update(tag="refusal-probes", create=False, ops=["load"],
-                  refusals=[refusal_item(fixed, c, SPECS[pw["spec"]], pw["mw"]) for c in CLASSES_BC + CLASSES_AM])
+                  refusals=[refusal_item(fixed, c, SPECS[pw["spec"]], pw["mw"]) for c in CLASSES_BC + CLASSES_AM]
+                  + [refusal_item(fixed, c, SPECS[pw["spec"]], pw["mw"], size=pw["size"]) for c in CLASSES_T])
         worlds.append(pw)
     # ... and seeded ones after the creation / entry-point jobs of every other world (same process,
     # same caches: the refused request meets whatever history the world already has)
@@ -979,6 +1238,9 @@ def pipeline_worlds(ctx):
         if not ctx.quick():
             w["refusals"].append(refusal_item(rng, rng.choice([c for c in CLASSES_BC if not (noc and cc.REFUSALS[c][2])]),
                                               SPECS[w["spec"]], w["mw"], noc))
+        # (v) a valid request whose jobs fail transiently (group T): the entry points that map through iter_unordered
+        for _ in range(ctx.n(1, 2)):
+            w["refusals"].append(refusal_item(rng, rng.choice(CLASSES_T), SPECS[w["spec"]], w["mw"], noc, size=w["size"]))
     for i, w in enumerate(worlds):
         w["id"] = "p%03d" % i
         w.setdefault("opts", {})
@@ -1040,15 +1302,19 @@ def world_reference(ctx, ref, specname, opts):
 CLASSES_AM = sorted(c for c, v in cc.REFUSALS.items() if v[0] in "AM")
 CLASSES_BC = sorted(c for c, v in cc.REFUSALS.items() if v[0] in "BC")
 CLASSES_C = sorted(c for c, v in cc.REFUSALS.items() if v[0] == "C")
+CLASSES_T = sorted(c for c, v in cc.REFUSALS.items() if v[0] == "T")
 NEEDS_EXTRA = {"cross-patch-ids-differ": ["ids"], "auto-patch-ids-differ": ["ids"], "auto-centres-misaligned": ["shift"],
                "cross-centres-misaligned": ["shift"], "trees-no-redshifts": ["noz"], "auto-no-redshifts": ["noz"],
                "cross-no-redshifts": ["noz"], "hist-no-redshifts": ["noz"]}
 
 
-def refusal_item(rng, cls, spec, mw, no_create=False):
+def refusal_item(rng, cls, spec, mw, no_create=False, size=3):
     """parameters of one request of refusal class `cls` and the valid operation that follows it"""
     par = {}
-    if cls == "random-probe-exceeds-records":
+    if cls in CLASSES_T:
+        op = cls.rsplit("-", 1)[1]
+        par = dict(plan=cf.draw_plan(rng, size, cc.FAULT_MAX_EP[op], next_kind_index()))
+    elif cls == "random-probe-exceeds-records":
         pn, n = rng.choice([2, 3, 4, 6]), rng.choice([40, 150, 300, 999])
         # None: automatic probe size (100000 * sqrt(patch_num)); explicit sizes below 10 * patch_num are replaced by it
         probe = rng.choice([None, None, n + 1, n + 2, max(n + 50, 10 * pn), 7])
@@ -1094,9 +1360,10 @@ def refusal_reference(ref, specname, cls, par):
     return _ref_first[key]
 
 
-NEEDS_REGULAR = {"cross-no-randoms": ["data", "unk"], "cross-patch-ids-differ": list(cc.CATS), "auto-patch-ids-differ": ["data", "rand"],
+NEEDS_REGULAR = {"transient-job-error-%s" % op: list(cats) for op, cats in cc.FAULT_CATS.items()}
+NEEDS_REGULAR.update({"cross-no-randoms": ["data", "unk"], "cross-patch-ids-differ": list(cc.CATS), "auto-patch-ids-differ": ["data", "rand"],
                  "auto-centres-misaligned": ["data"], "cross-centres-misaligned": ["data", "unk"], "create-cache-exists": ["urand"],
-                 "auto-no-redshifts": ["rand"], "cross-no-redshifts": ["unk", "rand"]}
+                 "auto-no-redshifts": ["rand"], "cross-no-redshifts": ["unk", "rand"]})
 
 
 def refusal_env(d, ref, cls, caches):
@@ -1123,7 +1390,7 @@ def refusal_job(w, d, caches, ref, item, jid, seed):
     if item["follow"] == "create":      # stage_follow creates in <scratch directory>/follow
         cc.prepare_create_input(SPECS[w["spec"]], os.path.join(env["dir"], "follow"), "data", w.get("opts"))
     return dict(kind="refusal", id=jid, cls=cls, par=item["par"], follow=item["follow"], spec=SPECS[w["spec"]],
-                trace=cc.REFUSALS[cls][0] == "C", opts=w.get("opts") or {},
+                trace=cc.REFUSALS[cls][0] in "CT", opts=w.get("opts") or {},
                 env=env, max_workers=mw,
                 sched=dict(mode=w["mode"], policy=w["policy"], seed=seed, hosts=host_names(w.get("hosts"))),
                 ref_first=item.get("ref_first") or refusal_reference(ref, w["spec"], cls, item["par"]))
@@ -1146,6 +1413,14 @@ def handle_refusal(ctx, st, w, ref, j, res):
                   data_spec=dict(SPECS[w["spec"]], name=w["spec"]), single_process_outcome=want_first,
                   how="harness/props/c06_driver.py job kind 'refusal': cc.stage_refusal on every rank = the request, "
                       "COMM.Barrier(), then the follow-up operation on the regular data catalog")
+    if group == "T":
+        plan = cf.Plan(par["plan"])
+        ctx.bump("transient_requests:%s/%s" % (cls.rsplit("-", 1)[1], plan_label(plan)))
+        if not plan.rank_independent():
+            # failing depends on the rank: the single-process run (one rank) says nothing; the request ends by raising iff
+            # some execution failed
+            failed = [x for x in res["runs"][0].get("xlog", []) if x[4]]
+            want_first = ["raised", "(the exception of a failed execution)"] if failed else ["returned"]
     refused = want_first[0] == "raised"
     ctx.count(key=("refusal", cls, json.dumps(par, sort_keys=True), follow, size, j["max_workers"], w["mode"], w["policy"],
                    sched.get("seed"), w["spec"], tuple(w.get("hosts") or ())),
@@ -1172,6 +1447,15 @@ def handle_refusal(ctx, st, w, ref, j, res):
             ctx.fail("c06-refusal-%s-root-outcome-differs" % cls,
                      "%s on %d ranks: the single-process run ends with %s, the root rank with %s (all ranks returned)"
                      % (request, size, want_first[:2], (root_first or [])[:2]), dict(replay, per_rank=per_rank), case=idx)
+        elif refused and group == "T":
+            # one exception kind planned and failing independent of the rank: class and errno as in the single-process run
+            # (several kinds: whichever failed execution reaches the root first - checked per iter_unordered call)
+            plan = cf.Plan(par["plan"])
+            if plan.rank_independent() and len(set(plan.kinds)) == 1 and (root_first[1], (root_first + [None] * 4)[3]) != (want_first[1], (want_first + [None] * 4)[3]):
+                ctx.fail("c06-refusal-%s-exception-class-differs" % cls,
+                         "%s on %d ranks: the single-process run raises %s (errno %s), the root rank %s (errno %s)"
+                         % (request, size, want_first[1], (want_first + [None] * 4)[3], root_first[1], (root_first + [None] * 4)[3]),
+                         dict(replay, per_rank=per_rank), case=idx)
         elif refused and group != "M" and root_first[1] != want_first[1]:
             ctx.disagree("refusal-exception-type(root vs single process)", idx,
                          dict(replay=replay, root=root_first, single_process=want_first))
@@ -1498,7 +1782,7 @@ def is_f13b(run, wr=1):
 # ------------------------------------------------------------------------------------------
 def new_state():
     return dict(terms=[], meta=[], noterm=[], rterms=[], rmeta=[], eterms=[], emeta=[], enoterm=[], qterms=[], qmeta=[],
-                lterms=[], lmeta=[], create_failed=set())
+                lterms=[], lmeta=[], create_failed=set(), xterms=[], xmeta=[], xnoterm=[])
 
 
 def run(ctx):
@@ -1566,6 +1850,8 @@ def run(ctx):
                     selftest = res.get("selftest")
                 elif res.get("skipped"):
                     ctx.bump("dispatch_job_skipped_after_stuck_threads")
+                elif j.get("fault") is not None:
+                    handle_xfault(ctx, st, w["size"], j, res)
                 elif j.get("bad") is not None:
                     handle_joberr(ctx, st, w["size"], j, res)
                 else:
@@ -1582,6 +1868,8 @@ def run(ctx):
     ctx.log("refusal shards done (%.1fs)" % (time.time() - t0))
     finish_edispatch(ctx, st)
     ctx.log("job-error shards done (%.1fs)" % (time.time() - t0))
+    finish_xdispatch(ctx, st)
+    ctx.log("transient-failure shards done (%.1fs)" % (time.time() - t0))
     finish_qdispatch(ctx, st)
     ctx.log("consumer-stop shards done (%.1fs)" % (time.time() - t0))
     finish_layouts(ctx, st)
@@ -1637,9 +1925,15 @@ def replay(ctx, data):
                                          stop=r.get("consumer_asks_for_at_most"))])
         if r.get("job_raises_for") is not None:
             job["jobs"][0]["bad"] = r["job_raises_for"]
+        if r.get("fault_plan") is not None:
+            job["jobs"][0]["fault"] = r["fault_plan"]
         res = launch(ctx, "replay", job)
         st = new_state()
-        if r.get("job_raises_for") is not None:
+        if r.get("fault_plan") is not None:
+            handle_xfault(ctx, st, size, job["jobs"][0], res["out"]["results"][0])
+            finish_xdispatch(ctx, st)
+            finish_edispatch(ctx, st)
+        elif r.get("job_raises_for") is not None:
             handle_joberr(ctx, st, size, job["jobs"][0], res["out"]["results"][0])
             finish_edispatch(ctx, st)
         else:
@@ -1658,6 +1952,7 @@ def replay(ctx, data):
         handle_pipeline(ctx, w, ref, res["out"], st, job["jobs"])
         finish_refusals(ctx, st)
         finish_edispatch(ctx, st)
+        finish_xdispatch(ctx, st)
     else:
         name = r["data_spec"]["name"]
         ref = reference(ctx, name)
